@@ -300,8 +300,31 @@ func ruleTIndex(p *Program, r *Reporter) {
 					r.Bad(pos, key, "an index is reported as a projection")
 				case strings.HasPrefix(node, "Small"):
 					lo, hi, _ := o.St.intRange(v)
-					if lo < 0 || hi > math.MaxUint8 {
-						r.Bad(pos, key, fmt.Sprintf("the one-byte index node is built when the index is only known to lie in [%d, %d]", lo, hi))
+					// the range the node's Value field can hold (one unsigned byte on the pinned tree)
+					flo, fhi := int64(0), int64(math.MaxUint8)
+					if t := avDyn(o.Res[0]); t != nil {
+						if st, ok := derefType(t).Underlying().(*types.Struct); ok {
+							for i := 0; i < st.NumFields(); i++ {
+								if st.Field(i).Name() != "Value" {
+									continue
+								}
+								if b, ok := st.Field(i).Type().Underlying().(*types.Basic); ok {
+									switch b.Kind() {
+									case types.Int8:
+										flo, fhi = math.MinInt8, math.MaxInt8
+									case types.Int16:
+										flo, fhi = math.MinInt16, math.MaxInt16
+									case types.Uint16:
+										flo, fhi = 0, math.MaxUint16
+									case types.Int32:
+										flo, fhi = math.MinInt32, math.MaxInt32
+									}
+								}
+							}
+						}
+					}
+					if lo < flo || hi > fhi {
+						r.Bad(pos, key, fmt.Sprintf("the small index node, whose Value holds %d..%d, is built when the index is only known to lie in [%d, %d]", flo, fhi, lo, hi))
 					} else {
 						r.OK(pos, key, node+" under 0 <= n <= 255")
 					}
